@@ -788,6 +788,8 @@ class Interp:
         s = s.strip()
         if s.startswith("no_retag "):
             s = s[9:]
+        if s.startswith("const ") and re.search(r"::promoted\[\d+\]$", s):
+            return self.operand(p, s)
         if s.startswith(("copy ", "move ", "const ")) and " as " not in self._strip_parens(s):
             return self.operand(p, s)
         # cast
